@@ -4,6 +4,7 @@ import (
 	"fmt"
 	"go/ast"
 	"go/types"
+	"os"
 	"regexp"
 	"sort"
 	"strings"
@@ -76,6 +77,8 @@ type KeyInfo struct {
 	Sort   string
 	Kind   string // field cell mem global local ghost alloc mapdom mapval maplen iter
 	GoType string // field, global: the Go type of the stored value
+	Ref    bool   // the stored Int is an object reference (pointer, map, chan)
+	wfDone bool
 }
 
 // FnVC generates verification conditions for one function.
@@ -403,14 +406,20 @@ func (vc *FnVC) key(name, sort, kind string) *KeyInfo {
 	vc.keys[name] = k
 	vc.needSorts(sort)
 	vc.declare(entrySym(name), sort)
+	if sort != "(Array Int Int)" {
+		vc.entryWF(k)
+	}
 	return k
 }
 
 func (vc *FnVC) keyFrom(ki *KeyInfo) *KeyInfo {
+	_, had := vc.keys[ki.Name]
 	k := vc.key(ki.Name, ki.Sort, ki.Kind)
 	if k.GoType == "" {
 		k.GoType = ki.GoType
 	}
+	_ = had
+	vc.entryWF(k)
 	return k
 }
 
@@ -506,7 +515,24 @@ func (vc *FnVC) fieldKey(structT types.Type, f *types.Var) *KeyInfo {
 	name := "F!" + typeName(structT) + "!" + f.Name()
 	k := vc.key(name, "(Array Int "+fs+")", "field")
 	k.GoType = f.Type().String()
+	switch f.Type().Underlying().(type) {
+	case *types.Pointer, *types.Map, *types.Chan:
+		k.Ref = true
+	}
+	vc.entryWF(k)
 	return k
+}
+
+// entryWF emits (once) the heap well-formedness fact of a key for the entry state.
+func (vc *FnVC) entryWF(k *KeyInfo) {
+	if k.wfDone || k.Kind == "local" || k.Kind == "iter" || k.Name == "$alloc" {
+		return
+	}
+	if k.Sort == "(Array Int Int)" && !k.Ref && !(strings.HasPrefix(k.GoType, "*") || strings.HasPrefix(k.GoType, "map[")) {
+		return // not (yet) known to hold references
+	}
+	k.wfDone = true
+	vc.fact(vc.wfHeap(&State{m: map[string]string{}}, k.Name))
 }
 
 func fieldKeyName(structT types.Type, fname string) string {
@@ -715,6 +741,34 @@ func (vc *FnVC) typeFacts(st *State, t types.Type, term string) string {
 	case *types.Interface:
 		return smtAnd(sx("<=", sx("i.pay", term), vc.allocTerm(st)), sx("<=", "0", sx("i.tag", term)),
 			smtImp(sx("=", sx("i.tag", term), "0"), sx("=", sx("i.pay", term), "0")))
+	}
+	return "true"
+}
+
+// wfHeap states heap well-formedness for the current value of a state key: every slice base (and, where the Go type
+// of the stored value is known to be a pointer or map, every reference) stored anywhere in it was allocated before
+// now. Program loads get this fact per load (typeFacts); quantified contract clauses need it for all cells.
+func (vc *FnVC) wfHeap(st *State, key string) string {
+	if os.Getenv("GOVC_NOWF") != "" {
+		return "true"
+	}
+	ki := vc.keys[key]
+	if ki == nil || key == "$alloc" {
+		return "true"
+	}
+	t := vc.get(st, key)
+	a := vc.allocTerm(st)
+	switch {
+	case ki.Sort == "(Array Int Slice)":
+		return fmt.Sprintf("(forall ((r Int)) (! (and (<= (s.base (select %s r)) %s) (<= (ref.root (s.base (select %s r))) %s)) :pattern ((select %s r))))", t, a, t, a, t)
+	case strings.HasPrefix(ki.Sort, "(Array Int (Array ") && strings.HasSuffix(ki.Sort, " Slice))"):
+		ks := strings.TrimSuffix(strings.TrimPrefix(ki.Sort, "(Array Int (Array "), " Slice))")
+		if strings.ContainsAny(ks, "()") {
+			return "true"
+		}
+		return fmt.Sprintf("(forall ((r Int) (k %s)) (! (and (<= (s.base (select (select %s r) k)) %s) (<= (ref.root (s.base (select (select %s r) k))) %s)) :pattern ((select (select %s r) k))))", ks, t, a, t, a, t)
+	case ki.Sort == "(Array Int Int)" && (ki.Ref || strings.HasPrefix(ki.GoType, "*") || strings.HasPrefix(ki.GoType, "map[")):
+		return fmt.Sprintf("(forall ((r Int)) (! (and (<= (select %s r) %s) (<= (ref.root (select %s r)) %s)) :pattern ((select %s r))))", t, a, t, a, t)
 	}
 	return "true"
 }
